@@ -224,7 +224,9 @@ impl Policy {
             _ => {}
         }
         if !unsync {
-            // sync: excess (after a weight-growing update) is evicted in the same pass.
+            // sync: the pass ends with a purge at its own reading, then evicts the excess
+            // (after a weight-growing update) in the same pass.
+            self.purge_expired(now);
             self.evict_excess();
         }
     }
@@ -337,11 +339,35 @@ impl Policy {
         if !self.enabled {
             return;
         }
+        // Entries that only await purging (expired / invalidated but still held) distort
+        // the weights the implementation sees; they are judged by C10/C11, not here.
+        if self.cfg.kind == Kind::Sync && snap.entries.iter().any(|e| must_not_see(e.key as u16)) {
+            self.in_sync = false;
+            self.exp = Expect::default();
+            return;
+        }
         if !self.in_sync {
             self.adopt(snap);
             return;
         }
         let actual: BTreeSet<u16> = snap.entries.iter().map(|e| e.key as u16).collect();
+        // unsync: the excess created by a weight-growing update may be evicted by the
+        // update itself or by the next housekeeping operation (C04 sanctions both);
+        // accept the eager variant when that is what the implementation did.
+        if self.cfg.kind == Kind::Unsync {
+            if let Some(cap) = self.cfg.cap {
+                if self.total() > cap {
+                    let (ent0, lru0, exp0) = (self.ent.clone(), self.lru.clone(), self.exp.clone());
+                    self.evict_excess();
+                    let eager: BTreeSet<u16> = self.ent.keys().copied().collect();
+                    if eager != actual {
+                        self.ent = ent0;
+                        self.lru = lru0;
+                        self.exp = exp0;
+                    }
+                }
+            }
+        }
         let predicted: BTreeSet<u16> = self.ent.keys().copied().collect();
         self.stats.steps_checked += 1;
         let exp = std::mem::take(&mut self.exp);
